@@ -30,13 +30,19 @@ pub fn op_adds(model: &Model, op: &Op) -> Result<Vec<(String, String, Ty, String
             if model.info(*ty).file.is_none() {
                 return Err(ExpectErr::NotExportable);
             }
+            // the text is produced without touching the file system; a path above the root only
+            // matters when a specifier has to be computed from or to it
             let base = &model.default_base;
-            if let Some(Err(_)) = model.location(*ty, base) {
-                return Err(ExpectErr::AboveRoot);
-            }
-            for r in &model.info(*ty).import_refs {
-                if let Some(Err(AboveRoot)) = model.location(*r, base) {
-                    return Err(ExpectErr::AboveRoot);
+            let me = model.info(*ty);
+            let own_bad = matches!(model.location(*ty, base), Some(Err(_)));
+            for r in &me.import_refs {
+                if model.info(*r).ident == me.ident {
+                    continue;
+                }
+                match model.location(*r, base) {
+                    Some(Err(AboveRoot)) => return Err(ExpectErr::AboveRoot),
+                    Some(Ok(_)) if own_bad => return Err(ExpectErr::AboveRoot),
+                    _ => {}
                 }
             }
             return Ok(vec![]);
